@@ -96,6 +96,9 @@ NUM_LEAVES = [
     L("e", A("x")), L("e", A("y")), L("e", A("sub"), A("p")), L("e", A("sub"), A("q")),
     L("g", I("k1")), L("g", I("k2")),
 ]
+# locations that do NOT exist at the start: assignment targets only (never read by a generated term); an assignment
+# through the manager creates them - or does not, when the very first write fails
+FRESH_LEAVES = [L("d", I("new")), L("d", I("n0"), I("new")), L("d", I("o"), A("new")), L("e", A("new"))]
 FLAT_LEAVES = [k for k in NUM_LEAVES if len(k[1]) == 1]
 NESTED_LEAVES = [k for k in NUM_LEAVES if len(k[1]) > 1]
 IDX_LEAF = L("d", I("i0"))
@@ -139,7 +142,18 @@ def build_roots(init):
     gg._vpath = "g"
     F = LDict({k: E.FUNCS[k] for k in FN_NAMES})
     F._vpath = "F"
-    return {"d": d, "e": e, "g": gg, "F": F}
+    roots = {"d": d, "e": e, "g": gg, "F": F}
+    for k in FRESH_LEAVES:      # only when a state in which they already exist is rebuilt
+        if E.loc_str(k) in init:
+            c = roots[k[0]]
+            for kind, kk in k[1][:-1]:
+                c = c[kk] if kind == "i" else getattr(c, kk)
+            kind, kk = k[1][-1]
+            if kind == "a":
+                object.__setattr__(c, kk, init[E.loc_str(k)])
+            else:
+                dict.__setitem__(c, kk, init[E.loc_str(k)])
+    return roots
 
 
 def make_container(lockey, content, obj=False):
